@@ -1,6 +1,120 @@
 (* C15 — LIKE n BUT equals the explicit cell card it abbreviates.
-   Only restatements; proofs are in C15/Proofs.v. *)
+   Only restatements; proofs are in C15/Proofs.v.  The model functions named
+   here (tokenize, parse_kws, parse_one_cell, worker, finish_cell, ...) are the
+   definitions of C15/Model.v that the correspondence check executes. *)
 From Coq Require Import List NArith ZArith Bool String Ascii Reals.
-From T4V Require Import Base.Str Base.Scalar C15.Model.
+From T4V Require Import Base.Str Base.Scalar C15.Model C15.Proofs.
 Import ListNotations.
 Open Scope string_scope.
+
+(* apply_but glues "options" + " " + "BUT text"; the token list of the result is
+   the concatenation of the two token lists, provided no colon sits at the seam
+   (the normalisation deletes blanks around colons) *)
+Theorem C15_tokens_of_appended_options : forall a b : string,
+  sq_state false a = false -> leads_colon b = false ->
+  tokenize (a ++ " " ++ b) = (tokenize a ++ tokenize b)%list.
+Proof. exact tokenize_app. Qed.
+Print Assumptions C15_tokens_of_appended_options.
+
+(* parse_keywords on options ++ overrides: after the options, parsing goes on
+   from the dictionary of the options (any scalar type, binary64 included) *)
+Theorem C15_keywords_prefix : forall (T : Type) (SC : Scalar T) (e : env (T:=T))
+    (opts ovr : list string) (k1 : kws (T:=T)),
+  parse_kws SC e opts = Ok k1 -> kw_head ovr ->
+  parse_kws SC e (opts ++ ovr) = parse_from SC (List.length ovr) e k1 ovr.
+Proof. exact @parse_kws_app. Qed.
+Print Assumptions C15_keywords_prefix.
+
+(* later keyword wins: for mat, rho, u, fill (universe(s), bounds and
+   transformation together), trcl and lat the value of the overrides when they
+   have one, the value of the options otherwise; the importance is the maximum *)
+Theorem C15_keywords_later_wins : forall (e : env (T:=R)) (opts ovr : list string)
+    (k1 k2 : kws (T:=R)),
+  parse_kws RS e opts = Ok k1 -> parse_kws RS e ovr = Ok k2 -> kw_head ovr ->
+  exists k, parse_kws RS e (opts ++ ovr) = Ok k /\
+    k_mat k = orelse (k_mat k2) (k_mat k1) /\
+    k_rho k = orelse (k_rho k2) (k_rho k1) /\
+    k_u k = orelse (k_u k2) (k_u k1) /\
+    k_trcl k = orelse (k_trcl k2) (k_trcl k1) /\
+    k_lat k = orelse (k_lat k2) (k_lat k1) /\
+    (k_fb k, k_fu k, k_fp k) =
+      match k_fu k2 with
+      | Some _ => (k_fb k2, k_fu k2, k_fp k2)
+      | None => (k_fb k1, k_fu k1, k_fp k1)
+      end /\
+    k_imp k = match k_imp k2, k_imp k1 with
+              | Some v, Some o => Some (Rmax v o)
+              | Some v, None => Some v
+              | None, x => x
+              end.
+Proof. exact keywords_later_wins_R. Qed.
+Print Assumptions C15_keywords_later_wins.
+
+(* the LIKE loop: a LIKE card, at the end of a chain of any length in an acyclic
+   table, is parsed as the explicit card "text of the card n stands for, then
+   the BUT text" *)
+Theorem C15_like_chain_text : forall (T : Type) (SC : Scalar T) (e : env (T:=T)) (tbl : table)
+    (fuel rank : nat) (lat : option (list (Z * Z))) (mat0 g0 o : string) (n : Z) (d : nat)
+    (x : card),
+  search_like (lower g0) = Some n -> denotes tbl n d x -> (d < fuel)%nat ->
+  parse_one_cell SC fuel e tbl rank lat (mat0, g0, o) = worker SC e rank lat (apply_but x o).
+Proof. exact @like_equals_expanded_text. Qed.
+Print Assumptions C15_like_chain_text.
+
+(* LIKE n BUT o = the cell with the material string and the geometry of the card
+   n stands for, and n's keyword dictionary with every parameter listed in o
+   overridden — provided o does not lower an importance written on the
+   inherited cards (see C15_like_imp_refuted) *)
+Theorem C15_like_equals_expanded : forall (e : env (T:=R)) (tbl : table) (fuel rank : nat)
+    (lat : option (list (Z * Z))) (mat0 g0 o : string) (n : Z) (d : nat)
+    (mx gx ox : string) (kb ko : kws (T:=R)),
+  search_like (lower g0) = Some n -> denotes tbl n d (mx, gx, ox) -> (d < fuel)%nat ->
+  sq_state false ox = false -> leads_colon o = false -> kw_head (tokenize o) ->
+  parse_kws RS e (tokenize ox) = Ok kb -> parse_kws RS e (tokenize o) = Ok ko ->
+  (forall v w, k_imp ko = Some v -> k_imp kb = Some w -> (w <= v)%R) ->
+  parse_one_cell RS fuel e tbl rank lat (mat0, g0, o) =
+  (parse_material e mx >>= fun '(mid, rho) =>
+   match getast e gx with
+   | None => Err EParse
+   | Some ast => finish_cell e rank lat mid rho ast (override kb ko)
+   end) /\
+  parse_one_cell RS fuel e tbl rank lat (mx, gx, ox) =
+  (parse_material e mx >>= fun '(mid, rho) =>
+   match getast e gx with
+   | None => Err EParse
+   | Some ast => finish_cell e rank lat mid rho ast kb
+   end).
+Proof. exact like_equals_expanded_full. Qed.
+Print Assumptions C15_like_equals_expanded.
+
+(* the unguarded statement is false of the code: BUT IMP:N=0 on a copy of a
+   card that says IMP:N=1 keeps importance 1, the explicit card has 0 *)
+Theorem C15_like_imp_refuted :
+  exists (e : env (T:=R)) (tbl : table) (c_like c_expl : cell (T:=R)),
+    lookup 1%Z tbl = Some (" 1 -1.0", " -1 ", "imp:n=1") /\
+    parse_one_cell RS 2 e tbl 1 None ("", " like 1 but", " imp:n=0") = Ok c_like /\
+    parse_one_cell RS 2 e tbl 1 None (" 1 -1.0", " -1 ", "imp:n=0") = Ok c_expl /\
+    c_imp c_like = 1%R /\ c_imp c_expl = 0%R /\ c_like <> c_expl.
+Proof. exact like_imp_refuted. Qed.
+Print Assumptions C15_like_imp_refuted.
+
+(* non-vacuity: LIKE 2 BUT RHO *TRCL where 2 is itself LIKE 1 BUT MAT IMP *)
+Example C15_example :
+  let e := xenv 0%R 1%R in
+  let kb := x_kb RS 0%R 1%R in
+  let ko := x_ko 0%R in
+  search_like (lower " LIKE 2 BUT") = Some 2%Z /\
+  denotes xtbl 2 1 (" 1 -1.0", " -1 ", x_ox) /\
+  sq_state false x_ox = false /\
+  leads_colon " rho = -2.5 *TRCL=( 0 )" = false /\
+  kw_head (tokenize " rho = -2.5 *TRCL=( 0 )") /\
+  parse_kws RS e (tokenize x_ox) = Ok kb /\
+  parse_kws RS e (tokenize " rho = -2.5 *TRCL=( 0 )") = Ok ko /\
+  (forall v w, k_imp ko = Some v -> k_imp kb = Some w -> (w <= v)%R) /\
+  k_mat (override kb ko) = Some "2" /\ k_rho (override kb ko) = Some "-2.5" /\
+  k_trcl (override kb ko) = Some [0%R].
+Proof.
+  cbv zeta.
+  destruct (example_hyps RS 0%R 1%R) as (H1 & H2 & H3 & H4 & H5 & H6 & H7).
+  repeat split; try assumption. intros v w Hv. discriminate Hv.
+Qed.
